@@ -12,6 +12,7 @@ from symx.sstr import SStr, S, lift, truth, cps_of
 
 _PATTERN = type(_re.compile(""))
 LENIENT = {"repr": False}
+ENCODE_HOOK = [None]     # harness-provided model of str.encode() on a symbolic string (declared as a stub by that harness)
 STATS = {"sym_calls": 0}
 
 
@@ -122,6 +123,16 @@ def _symx_call(obj, name, *args, **kw):
             return PATH_HOOKS[name](*args, **kw)
         return getattr(_sympath(), name)(*args, **kw)
     return getattr(obj, name)(*args, **kw)
+
+
+def _symx_attr(obj, name):
+    """`re.search` / `str.strip` taken as a value: a callable that still routes through _symx_call"""
+    if obj is _re or obj is str:
+        def bound(*a, **k):
+            return _symx_call(obj, name, *a, **k)
+        bound.__name__ = name
+        return bound
+    return getattr(obj, name)
 
 
 def _symx_str(*a, **k):
